@@ -210,6 +210,10 @@ class SReal:
     def __init__(self, e):
         self.e = e
 
+    def __bool__(self):
+        # truthiness of a number is `x != 0` (np.count_nonzero, `if x:`); without this Python would answer True silently
+        return E.cur().branch(self.e != 0)
+
     # -- arithmetic ---------------------------------------------------------
     def _nf(self, o):
         return isinstance(o, (float, np.floating)) and (o != o or o in (INF, -INF))
